@@ -188,7 +188,7 @@ class C17(core.Property):
     lean_files = ["HappyModel/C17/*.lean", "HappyProofs/C17/*.lean", "HappyModel/Proto.lean", "Driver/C17.lean"]
     theorems = []
     variants = ["repaired", "current"]
-    quick_cases = 900
+    quick_cases = 2400
     thorough_cases = 30000
     case_timeout_s = 20
     rule = ("families pb / chain / ml in rotation: 1-8 client ops (16 in thorough) on 1-3 keys, write values unique per run, "
@@ -216,9 +216,6 @@ class C17(core.Property):
         "chain: 2 <= n (build_chain's own precondition)",
     ]
     partial_theorems = {
-        "chain_quiescent_convergence_partial": "proved: nodes are ordered along the chain and stores are functions of the applied "
-            "sequence, so once the tail has caught up with the head on a key all nodes agree; gap to chain_quiescent_convergence_full: "
-            "the delivery-completeness invariant (quiescent => tail caught up) is validated by the correspondence runs only",
         "ml_merge_order_independent": "proved: for coherent versions the merge decision is a total-order maximum, so replicas that merged "
             "the same set of versions agree (with ml_install_is_merge tying it to the model's _install); gap to "
             "ml_quiescent_convergence_full: the run-level ghost invariant (replica version = mergeAll of delivered versions, coherence "
@@ -615,7 +612,7 @@ THEOREMS = [
     "HappyModel.C17.backup_reorder_diverges",
     "HappyModel.C17.chain_ack_all_nodes",
     "HappyModel.C17.chain_read_committed",
-    "HappyModel.C17.chain_quiescent_convergence_partial",
+    "HappyModel.C17.chain_quiescent_convergence",
     "HappyModel.C17.ml_install_is_merge",
     "HappyModel.C17.ml_merge_order_independent",
 ]
